@@ -165,3 +165,129 @@ Print Assumptions c04_abacus_orientation_prescribed.
 Print Assumptions c04_legalize_circuit_orient_ok.
 Print Assumptions c04_legalize_circuit_rowhigh_orient_ok.
 Print Assumptions c04_sidebyside_orientation_refuted.
+
+(* ====================================================================================== *)
+(* C04 for DETAILED PLACEMENT: the row data structure of DetailedPlacement (Moves.v, tied to the
+   C++ by ./check C02: exact comparison of the whole structure, orientations included, after every
+   operation) and the orientation invariant of MovesOrientProofs.v.
+     OInvM s            every cell placed in a row r has, whenever the table entry
+                        cell_orientation_in_row (p_pol c) (dr_o r) is not UNKNOWN, exactly that
+                        orientation, and the entry is not INVALID (the row is not forbidden);
+     hist_allowed s ops the RAW place operations of the history (MPlace: the C++ primitive place(),
+                        guarded only by canPlace = room in the site) target a row that is allowed
+                        for the cell; swap / insert / unplace need no hypothesis: canSwap /
+                        canInsert test rowAllowed (the repair of finding F7);
+     anykey c           (id, width, polarity, orientation if the polarity is ANY). *)
+Require Import CV.Moves CV.MovesProofs CV.MovesOrientProofs.
+From Coq Require Import Permutation.
+
+(* [F] the boolean checker used on the driven states decides the invariant *)
+Theorem c04_oinvb_decides : forall s, oinvb s = true <-> OInvM s.
+Proof. exact oinvb_spec. Qed.
+
+(* [F] each operation whose guard holds keeps the invariant: swap and insert by their own guards,
+   unplace and the shift pass unconditionally, the raw place when the row is allowed for the cell *)
+Theorem c04_each_move_keeps_orientation : forall s,
+  OInvM s ->
+  (forall c1 c2 s', swap s c1 c2 = Some s' -> OInvM s') /\
+  (forall c rowi pred s', insert s c rowi pred = Some s' -> OInvM s') /\
+  (forall c s', unplace s c = Some s' -> OInvM s') /\
+  (forall c rowi pred x s', place_allowed s c rowi = true -> place s c rowi pred x = Some s' -> OInvM s') /\
+  (forall xs, OInvM (apply_shift s xs)).
+Proof.
+  intros s HI. split; [|split; [|split; [|split]]].
+  - intros c1 c2 s' H. eapply swap_oinv; eassumption.
+  - intros c rowi pred s' H. eapply insert_oinv; eassumption.
+  - intros c s' H. exact (proj1 (unplace_oinv _ _ _ HI H)).
+  - intros c rowi pred x s' HA H. eapply place_oinv; eassumption.
+  - intros xs. apply shift_oinv. exact HI.
+Qed.
+
+(* [F] hence every history of swap / insert / unplace / place operations (performed when their
+   guard holds, refused otherwise) whose raw place operations are allowed keeps the invariant *)
+Theorem c04_moves_keep_orientation : forall ops s,
+  OInvM s -> hist_allowed s ops -> OInvM (run_mops s ops).
+Proof. exact run_mops_oinv. Qed.
+
+(* [F] in particular every history made of swap / insert / unplace only, with ARBITRARY arguments *)
+Theorem c04_guarded_moves_keep_orientation : forall ops s,
+  OInvM s -> forallb no_raw_place ops = true -> OInvM (run_mops s ops).
+Proof. exact run_mops_oinv_guarded. Qed.
+
+(* [F] and every history mixing these moves with shift passes (ANY vector of new positions) *)
+Theorem c04_moves_and_shifts_keep_orientation : forall ops s,
+  OInvM s -> dhist_allowed s ops -> OInvM (run_dops s ops).
+Proof. exact run_dops_oinv. Qed.
+
+(* [F] what the invariant says against the DOCUMENTED table (Circuit.prescribed, transcribed from
+   coloquinte.hpp independently of the code): a polarised cell placed in a row of known orientation
+   has exactly the documented orientation of that row, which is a real orientation; the row is not
+   a forbidden one *)
+Theorem c04_moves_orientation_prescribed : forall s r c,
+  OInvM s -> In r (d_rows s) -> In c (dr_cells r) ->
+  p_pol c <> pANY -> dr_o r <> oUNKNOWN -> dr_o r <> oINVALID ->
+  prescribed (p_pol c) (dr_o r) = Some (Some (p_o c)) /\ p_o c <> oINVALID /\ p_o c <> oUNKNOWN.
+Proof. exact oinv_prescribed. Qed.
+
+Theorem c04_moves_never_on_forbidden_row : forall s r c,
+  OInvM s -> In r (d_rows s) -> In c (dr_cells r) -> row_allowed (p_pol c) r = true.
+Proof. exact oinv_row_allowed. Qed.
+
+(* [F] cells without polarity keep the orientation they had -- NO hypothesis on the history (raw
+   place included, guards or not): the multiset of (id, width, polarity, orientation-if-ANY) over
+   all cells, placed or not, is the same after every history of moves and shifts *)
+Theorem c04_moves_any_cells_keep_orientation : forall ops s,
+  Permutation (map anykey (cells_of s)) (map anykey (cells_of (run_dops s ops))).
+Proof. exact run_dops_keys. Qed.
+
+Theorem c04_moves_any_cell_reads : forall ops s c',
+  In c' (cells_of (run_dops s ops)) -> p_pol c' = pANY ->
+  exists c, In c (cells_of s) /\ p_id c = p_id c' /\ p_w c = p_w c' /\ p_pol c = pANY /\ p_o c = p_o c'.
+Proof. exact any_cells_keep_orientation. Qed.
+
+(* [R] the hypothesis on raw place operations cannot be dropped: place() itself does not test
+   rowAllowed; an NW cell placed on an FS row gets INVALID (this was finding F7 when canSwap /
+   canInsert / the reordering write-back let it happen) *)
+Theorem c04_raw_place_unguarded_refuted :
+  OInvM f7_state /\ mop_allowed f7_state (MPlace 0 0 None 3) = false /\
+  exists s', apply_mop f7_state (MPlace 0 0 None 3) = Some s' /\
+             map (fun r => map p_o (dr_cells r)) (d_rows s') = [[oINVALID]] /\ ~ OInvM s'.
+Proof. exact place_unguarded_refuted. Qed.
+
+(* non-vacuity: SAME, NW cells on an N row; OPPOSITE, SAME, ANY cells on an FS row.  The cross-row
+   swap of the NW cell is refused, the one of the SAME cell is performed (both cells change
+   orientation), the OPPOSITE cell is inserted in the N row (N -> FS), the ANY cell moves to the N
+   row and keeps W; the invariant holds before and after, computed. *)
+Definition ex_c04_state : dstate :=
+  {| d_rows := [ {| dr_min := 0; dr_max := 12; dr_y := 0; dr_o := oN;
+                    dr_cells := [ {| p_id := 0; p_x := 0; p_w := 2; p_pol := pSAME; p_o := oN |};
+                                  {| p_id := 1; p_x := 3; p_w := 2; p_pol := pNW; p_o := oN |} ] |};
+                 {| dr_min := 0; dr_max := 12; dr_y := 1; dr_o := oFS;
+                    dr_cells := [ {| p_id := 2; p_x := 1; p_w := 2; p_pol := pOPPOSITE; p_o := oN |};
+                                  {| p_id := 3; p_x := 5; p_w := 2; p_pol := pSAME; p_o := oFS |};
+                                  {| p_id := 4; p_x := 8; p_w := 1; p_pol := pANY; p_o := oW |} ] |} ];
+     d_loose := [] |}.
+Definition ex_c04_ops : list mop := [MSwap 1 3; MSwap 0 3; MInsert 2 0 (Some 1%nat); MInsert 4 0 (Some 2%nat)].
+Example c04_moves_nonvacuous :
+  OInvM ex_c04_state /\ hist_allowed ex_c04_state ex_c04_ops /\
+  can_swap ex_c04_state 1 3 = Some false /\ can_swap ex_c04_state 0 3 = Some true /\
+  can_insert ex_c04_state 1 1 None = Some false /\
+  map (fun r => map (fun c => (p_id c, p_o c)) (dr_cells r)) (d_rows (run_mops ex_c04_state ex_c04_ops))
+  = [ [(3%nat, oN); (1%nat, oN); (2%nat, oFS); (4%nat, oW)]; [(0%nat, oFS)] ] /\
+  oinvb (run_mops ex_c04_state ex_c04_ops) = true.
+Proof.
+  split; [apply oinvb_spec; vm_compute; reflexivity|].
+  split; [apply no_raw_place_allowed; reflexivity|].
+  vm_compute. repeat split; reflexivity.
+Qed.
+
+Print Assumptions c04_oinvb_decides.
+Print Assumptions c04_each_move_keeps_orientation.
+Print Assumptions c04_moves_keep_orientation.
+Print Assumptions c04_guarded_moves_keep_orientation.
+Print Assumptions c04_moves_and_shifts_keep_orientation.
+Print Assumptions c04_moves_orientation_prescribed.
+Print Assumptions c04_moves_never_on_forbidden_row.
+Print Assumptions c04_moves_any_cells_keep_orientation.
+Print Assumptions c04_moves_any_cell_reads.
+Print Assumptions c04_raw_place_unguarded_refuted.
